@@ -84,7 +84,7 @@ CHECKS = {
  "C12": (MC, "6/C12", "TLC judge (ArgCheck.tla): accept iff complete, no extras and every value Fits its inferred type; the error must name exactly the offending variables",
          "For every compiled query with variables: the valid map, the empty map, each variable dropped, extra names, each variable replaced by each of 17 values of every kind and nesting, and two bad values at once are given to the real "
          "InterpretedQuery::from_query_and_arguments; TLC compares accept/reject and the named missing / unused / ill-typed variables with ArgCheck.tla.",
-         "Enum argument values are not in the universe (the crate does not support them: D10, see DESIGN section 8)."),
+         "Enum values are in the universe since D10 was repaired (they fit no supported type)."),
  "C19": (MC, "6/C19", "TLC judge (Schema!ValidSchema, one named predicate per documented rule) on a mutant family of schema documents rendered to SDL and given to the real Schema::parse under catch_unwind",
          "A valid base schema and every single mutation (thorough: every pair) of a 56-operator catalogue covering each rule in both directions plus duplicate / malformed blocks; the real accept / typed-error / panic outcome is compared with Schema!ValidSchema.",
          "Documents are built from object / interface types, custom scalars, directive definitions and schema blocks; enum / union / input / extend definitions are outside the supported constructs. Eight malformed-document panics are listed known findings (D13)."),
@@ -92,6 +92,10 @@ CHECKS = {
          "For every schema of the family that the real validator accepts, vertex types and interface flags, implements, implementer, properties with type text, edges with target / cardinality flags, parameters with type text and JSON default, "
          "and entrypoints are queried through the real SchemaAdapter (directly and through the Schema vertex); TLC compares each row bag with Introspect.tla. The repository's own check_adapter_invariants is run on SchemaAdapter.",
          "Docs strings are not compared. Bounded by the schema family."),
+ "C10": (EX, "6/C10", "TLC enumerates spec/DirectiveFSM.tla (directive-grouping automaton of the parser; its invariants checked) and every reachable directive sequence, plus catalogues of malformed directives, document shapes and parameter literals, is parsed by the real frontend under catch_unwind",
+         "Every directive sequence of length <= 3 (thorough 4) over the 7 directives and an unknown one, at an edge field, a property field and the root field; ~80 malformed single directives; ~110 document shapes (0-3 operations of each kind, fragments, variable definitions, "
+         "operation directives, root selections, inline fragments, aliases, unterminated text); ~20 parameter literals at three positions. Verdict: Ok or a typed error, never a panic. The automaton's predicted parse-level class is compared and reported as MODEL-DRIFT only.",
+         "Below GraphQL token level (arbitrary bytes) is async-graphql-parser's territory and is not enumerated; panic-freedom itself is observed, not model-checked."),
 }
 NOT_YET ="check not built yet at this commit (see DESIGN.md section 6 for the planned decision procedure)"
 
